@@ -9,7 +9,7 @@ use crate::run::*;
 use crate::tape::{mix, Decider, St};
 use crate::val::Val;
 use crate::world::*;
-use crate::zoo::{ZooMsg, N_TYPES, TYPE_NAMES};
+use crate::zoo::{type_name, ZooMsg, N_TYPES};
 use flatty::error::ErrorKind;
 use flatty::AlignedBytes;
 use std::sync::Arc;
@@ -466,7 +466,7 @@ fn sys_base(prop: &str, world: WorldKind, backend: &str, ty: usize, seed: u64) -
         world,
         backend: backend.to_string(),
         type_index: ty,
-        type_name: TYPE_NAMES[ty].to_string(),
+        type_name: type_name(ty).to_string(),
         seed,
         tape: None,
         aux: Aux { systematic: true, ..Default::default() },
@@ -474,6 +474,18 @@ fn sys_base(prop: &str, world: WorldKind, backend: &str, ty: usize, seed: u64) -
         expect_log_hash: None,
         summary: None,
     }
+}
+
+/// Types used by the systematic layers: all hand-written ones plus 24 of the generated family
+/// instantiations (a slice that depends on the check seed).
+fn sys_types(seed: u64) -> Vec<usize> {
+    let mut v: Vec<usize> = (0..crate::zoo::N_HAND).collect();
+    let ng = crate::zoo_gen_list::N_GEN;
+    let start = (seed as usize).wrapping_mul(31) % ng;
+    for k in 0..24 {
+        v.push(crate::zoo::N_HAND + (start + k * 5) % ng);
+    }
+    v
 }
 
 fn bases_per_type(tier: &str, quick: u64, thorough: u64) -> u64 {
@@ -488,7 +500,7 @@ fn bases_per_type(tier: &str, quick: u64, thorough: u64) -> u64 {
 pub fn systematic_c09(backend: &str, seed: u64, tier: &str) -> Vec<Scenario> {
     let mut out = Vec::new();
     let nb = bases_per_type(tier, 2, 10);
-    for ty in 0..N_TYPES {
+    for ty in sys_types(seed) {
         for world in [WorldKind::Blocking, WorldKind::Async] {
             for b in 0..nb {
                 let s = mix(mix(seed, 0xC09), (ty as u64) << 8 | b);
@@ -539,7 +551,7 @@ pub fn systematic_c09(backend: &str, seed: u64, tier: &str) -> Vec<Scenario> {
 pub fn systematic_c10(backend: &str, seed: u64, tier: &str) -> Vec<Scenario> {
     let mut out = Vec::new();
     let nb = bases_per_type(tier, 2, 12);
-    for ty in 0..N_TYPES {
+    for ty in sys_types(seed) {
         for world in [WorldKind::Blocking, WorldKind::Async] {
             for b in 0..nb {
                 let s = mix(mix(seed, 0xC10), (ty as u64) << 8 | b);
@@ -563,7 +575,7 @@ pub fn systematic_splits(prop: &str, backend: &str, seed: u64, tier: &str) -> Ve
     let mut out = Vec::new();
     let world = if prop == "C08" { WorldKind::Async } else { WorldKind::Blocking };
     let nb = bases_per_type(tier, 2, 6);
-    for ty in 0..N_TYPES {
+    for ty in sys_types(seed) {
         for b in 0..nb {
             let s = mix(mix(seed, 0x5711), (ty as u64) << 8 | b);
             let mut base = sys_base(prop, world, backend, ty, s);
